@@ -166,6 +166,25 @@ M['S16_global_scratch_locked_per_chunk'] = [(LSF, READ_BLOCK, '''        // Reus
         };
 ''' % IOERR)]
 
+M['S17_fixed_64k_buffer_truncates'] = [(LSF, READ_BLOCK, '''        // The IERS list is about 10 KiB: one fixed buffer is plenty.
+        let mut buf = vec![0u8; 65536];
+        let mut n = 0;
+        loop {
+            match f.read(&mut buf[n..]) {
+                Ok(0) => break,
+                Ok(k) => {
+                    n += k;
+                    if n == buf.len() {
+                        break;
+                    }
+                }
+                Err(e) if e.kind() == std::io::ErrorKind::Interrupted => continue,
+                Err(e) => return Err(%s),
+            }
+        }
+        let contents = String::from_utf8_lossy(&buf[..n]).into_owned();
+''' % IOERR)]
+
 # ---- refactors: each preserves the clause; the check must stay silent ---------------------
 R = {}
 R['R1_bufreader_linewise'] = [(LSF, READ_BLOCK, '''        use std::io::BufRead;
